@@ -3,7 +3,8 @@ commands."""
 import os
 import z3
 from pyvc import spec
-from . import (put, trashdirs, purge, dates, restore, readers, scenarios, c03)
+from . import (put, trashdirs, purge, dates, restore, readers, scenarios, c03,
+               options)
 from .common import SV
 
 PROPERTY = 'C09'
@@ -20,6 +21,8 @@ LEVEL_NOTE = ('abstract view = bag of (join(V, unquote(first Path line)), first 
               '(empty VC).  The induction over the history is the standard '
               'schema, stated.')
 EXPECTED = [
+    'list-options/trash-dirs-are-the-option-values-in-order',
+    'list-options/action-is-listing-unless-the-last-action-flag-says-otherwise',
     'list-reader/one-line-iff-well-formed',
     'list-reader/line-is-date-space-absolute-path',
     'list-reader/at-most-one-message-per-entry',
@@ -56,6 +59,9 @@ def build(S, tier, seed):
     deps = [dates.ParseDeletionDate(), dates.ClockNow(), dates.OlderThan()]
     S.install(deps)
     purge.empty_vc(S, dry_run=False)
+    options.list_options_vc(S)
+    options.put_options_vc(S)
+    options.empty_options_vc(S)
 
     def put_adds(V):
         # posts of for_file + the C03 round trip => the new line shows the
